@@ -225,7 +225,7 @@ def clause_imeta_verbatim(prog, rep):
           and any(True for _ in f.aggregates("MediaReference")) and any(c.name in ("splitn", "split_once", "split") for c in f.live_calls())]
     rep.floor("aead-siblings", "imeta tag parser (builds a MediaReference from tag entries)", len(fs), 1)
     for f in fs:
-        fam = [f] + [prog.fns[p] for p in prog.fns if prog.fns[p].root == f.path and prog.fns[p] is not f]
+        fam = prog.family(f)
         bad = []
         for g in fam:
             for c in g.live_calls():
